@@ -7,6 +7,7 @@ show `name (hex)` exactly for ids of the supplied table, removed ids must never 
 same trace texts as (a).
 """
 import io
+import itertools
 import re
 
 from vlib import core, ev, wire, gen, histories as H
@@ -370,6 +371,56 @@ def dumps(res, ctx, rng):
         if bad:
             continue
         res.count('one_object_table_sequences')
+        # ... and the same requests made FIRST and consumed AFTERWARDS (the results are lazy): listings and traces asked
+        # of one object with different tables, all of them pending at once, read in another order than they were asked
+        # in or in turns - each is still that of the table it was asked with
+        one = PyKdebugParser()
+        one.color = False
+        one.show_timestamp = one.show_process = one.show_func_qual = one.show_args = False
+        one.show_tid = False
+        requests = []
+        try:
+            want_lists = {id(t_): listing_names(front(data, t_, 'kevents')) for t_ in (reduced, odd, bundled)}
+            for tbl, want_t in ((reduced, trs), (None, base_traces), (odd, trs_odd), (bundled, base_traces)):
+                requests.append((tbl, 'traces', want_t, one.traces(io.BytesIO(data), tbl)))
+                if tbl is not None:
+                    requests.append((tbl, 'listing', want_lists[id(tbl)], one.formatted_kevents(io.BytesIO(data), tbl)))
+                requests.append((tbl, 'formatted traces', [x[1] for x in want_t], one.formatted_traces(io.BytesIO(data), tbl)))
+            rng.shuffle(requests) if rng.random() < 0.5 else requests.reverse()
+            got_r = [[] for _ in requests]
+            if rng.random() < 0.5:
+                for i, (_, _, _, it) in enumerate(requests):
+                    got_r[i] = list(it)
+            else:
+                for row in itertools.zip_longest(*[r[3] for r in requests]):
+                    for i, x in enumerate(row):
+                        if x is not None:
+                            got_r[i].append(x)
+        except Exception as x:
+            res.violation(f'c19-pending-requests-raise-{core.exc_name(x)}', f'{x!r}', dict(case, removed=sorted(removed)))
+            continue
+        bad = False
+        for (tbl, what, want_r, _), g in zip(requests, got_r):
+            # (the object's thread and process tables are shared by its pending requests by design, so texts that show a
+            # pid learned from the records are not compared here: which ids are decoded, into what, and every listing line)
+            if what == 'traces':
+                g, want_r = [t.ktraces[0].eventid for t in g], [i_ for i_, _ in want_r]
+            elif what == 'listing':
+                g = listing_names(g)
+            else:
+                g, want_r = [len(g)], [len(want_r)]
+            if g != want_r:
+                k = next((i for i, (a, b) in enumerate(zip(g, want_r)) if a != b), min(len(g), len(want_r)))
+                res.violation('c19-table-of-another-pending-request-used', f'one front-end object, {len(requests)} requests made '
+                              f'with different tables before any was read: the {what} asked with '
+                              f'{"the default table" if tbl is None else "a supplied table of %d entries" % len(tbl)} '
+                              f'differ(s) at {k}: {g[k] if k < len(g) else None!r}, a fresh object gives '
+                              f'{want_r[k] if k < len(want_r) else None!r}', dict(case, removed=sorted(removed)))
+                bad = True
+                break
+        if bad:
+            continue
+        res.count('pending_requests_with_different_tables', len(requests))
         # (c) injective re-assignment of ids (real-fault ids are hard-coded in the page-fault decoder: left alone)
         movable = [i for i in used if i not in REAL_FAULT_IDS]
         free = [i for i in range(0x50000000, 0x50000000 + 4 * len(movable) * 3, 4) if i not in bundled]
@@ -466,6 +517,7 @@ def run(ctx):
     res.require('tables_with_qualifier_bit_ids_checked', 5)
     res.require('entry_point_comparisons', 10)
     res.require('one_object_table_sequences', 5)
+    res.require('pending_requests_with_different_tables', 30)
     res.require('table_files_without_final_line_terminator', 2)
     res.require('large_aligned_tables_compared', 6)
     res.require('callstacks_seen_under_supplied_tables', 1)
